@@ -98,20 +98,47 @@ def run(ctx):
     R.rule("C20-D1c string split", 1, "'-' is normalised to the field separator and every part is converted")
     fo = repo.func(MAN, "SuitComponentVersion.from_obj")
     fouts = [o for o in Evaluator(repo, inline_depth=0).outcomes(fo) if o.kind == "return"]
-    ok = False
     obj = Sym("param:obj")
-    split = App("meth:split", (App("meth:replace", (obj, Const("-"), Const("."))), Const(".")))
-    for o in fouts:
-        for g, t in cases(o.value):
-            for s in subterms(t):
-                if isinstance(s, App) and s.op == "comp:list" and s.args[1] == split and s.args[2] == App("conds", ()):
-                    el = s.args[0]
-                    if isinstance(el, App) and el.op == "call" and isinstance(el.args[0], Ref) \
-                            and el.args[0].obj is conv and el.args[-1] == App("elem", (split,)):
-                        ok = True
+    # decided by evaluating what is handed to the list constructor on sample versions, with a stand-in for the part conversion
+    # (comprehension, loop or map alike); a term that cannot be evaluated is not a verdict
+    from sa.teval import teval as _teval, Unknown as _Unknown
+    ok, found_ = bool(fouts), ""
+    samples = ["1", "1.2.3", "1.2.3-rc.4", "1-alpha", "1.2-beta.3", "", "10.0.0-rc", [1, 2, 3], [1, 2, -1, 4]]
+    try:
+        for o in fouts:
+            loops, louts = {}, {}
+            for e_ in all_effects(o.effects):
+                pass
+            def collect(effs):
+                for e_ in effs:
+                    if isinstance(e_, App) and e_.op == "eff:loop":
+                        if getattr(e_.node, "lineno", None) is not None:
+                            loops[e_.node.lineno] = (e_.args[0], e_.node.iter.id if isinstance(e_.node, ast.For) and isinstance(e_.node.iter, ast.Name) else None)
+                        collect(e_.args[1].args)
+                    elif isinstance(e_, App) and e_.op == "eff:if":
+                        collect(e_.args[1].args)
+                        collect(e_.args[2].args)
+            collect(o.effects)
+            for s_ in subterms(o.value):
+                if isinstance(s_, App) and s_.op == "loopout" and len(s_.args) == 3:
+                    louts.setdefault(s_.args[1].v, {})[s_.args[0].v] = s_.args[2]
+            if not (isinstance(o.value, App) and o.value.op in ("call", "supercall:from_obj") and o.value.args):
+                raise AnalysisError(f"{ctx.fq(fo)}: the result is not the list constructor applied to the parts")
+            arg = o.value.args[-1]
+            for smp in samples:
+                env = {"param:obj": smp, "__calls__": {conv.name: (lambda *a_: ("converted", a_[-1]))}, "__loops__": loops, "__loopouts__": louts}
+                if not all(_teval(c_, env) for c_ in o.conds):
+                    continue
+                got = _teval(arg, env)
+                want_ = [("converted", p_) for p_ in smp.replace("-", ".").split(".")] if isinstance(smp, str) else smp
+                if list(got) != list(want_):
+                    ok, found_ = False, f"{smp!r} -> {got!r}"
+                    break
+    except _Unknown as e_:
+        raise AnalysisError(f"{ctx.fq(fo)}: the parts handed to the list constructor are not evaluable ({e_})")
     R.check("C20-D1c string split", ok, "obj.replace('-', '.').split('.') -> _convert_version_part for each part", mod=m,
-            node=fo.node, function=ctx.fq(fo), expected="[convert(p) for p in obj.replace('-', '.').split('.')]",
-            found=f"{[repr(o.value)[:200] for o in fouts]}")
+            node=fo.node, function=ctx.fq(fo), expected="[convert(p) for p in obj.replace('-', '.').split('.')]; a list is taken as it is",
+            found=found_ or f"{[repr(o.value)[:200] for o in fouts]}")
 
     # ---- D1d: the pre-release label sits at a position that does not depend on the number of numeric fields
     R.rule("C20-D1d label position", 1, "the numeric core has a fixed number of fields when a pre-release label follows")
